@@ -1,8 +1,9 @@
 from pyvc.runner import Property
 import contracts.all  # noqa
 import contracts.mailbox as M
+import contracts.storage as ST
 
-PROVED = [M.KFE_E, M.KFE_L, M.KILL_E, M.KILL_L, M.SEND_FROM_E, M.SEND_FROM_L, M.SEND_E, M.READ_E]
+PROVED = [M.KFE_E, M.KFE_L, M.KILL_E, M.KILL_L, M.SEND_FROM_E, M.SEND_FROM_L, M.SEND_E, M.READ_E, ST.save_from]
 
 PROPERTY = Property(
     "C06", "other",
